@@ -462,12 +462,14 @@ def c16_run(case):
     top, scheds = c16_build(rng, case['dirty'])
     before = {id(j): set(j.required) for s in scheds for j in s.jobs}
     need_removal = any(r not in s.jobs for s in scheds for j in s.jobs for r in j.required)
-    res, _ = quiet(top.sanitize)
+    # (with and without messages: `verbose` only changes what is printed)
+    verbose = case['seed'] % 2 == 1
+    res, _ = quiet(top.sanitize, verbose=True) if verbose else quiet(top.sanitize)
     for s in scheds:
         for j in s.jobs:
             for r in j.required:
                 if r not in s.jobs:
-                    return 'after sanitize a requirement is not a member of the same scheduler'
+                    return 'after sanitize%s a requirement is not a member of the same scheduler' % ('(verbose=True)' if verbose else '')
             for r in before[id(j)]:
                 if r in s.jobs and r not in j.required:
                     return 'sanitize removed a requirement between two members of one scheduler'
@@ -595,7 +597,10 @@ def c18_run(case):
                 return 'reference model broken'      # sanity of the oracle itself
         elif op[0] == 'keep':
             keep = set(op[1])
-            s.keep_only([jobs[i] for i in keep])
+            arg = [jobs[i] for i in keep]
+            # the argument is "a collection of jobs": a list, a tuple, a set, or any iterable (here by turns)
+            form = (len(keep) + n) % 4
+            s.keep_only(arg if form == 0 else tuple(arg) if form == 1 else set(arg) if form == 2 else iter(arg))
             exp_alive = alive & keep
             exp_edges = {(a, b) for (a, b) in edges if a in exp_alive and b in exp_alive}
         else:
@@ -611,7 +616,10 @@ def c18_run(case):
             down = closure(suc, st) if st else set(alive)
             up = closure(req, en) if en else set(alive)
             exp_alive = (down & up) | (set(st) if ks else set()) | (set(en) if ke else set())
-            s.keep_only_between(starts=[jobs[i] for i in st], ends=[jobs[i] for i in en], keep_starts=ks, keep_ends=ke)
+            s_arg, e_arg = [jobs[i] for i in st], [jobs[i] for i in en]
+            if (len(st) + len(en)) % 3 == 1:
+                s_arg, e_arg = tuple(s_arg), set(e_arg)
+            s.keep_only_between(starts=s_arg, ends=e_arg, keep_starts=ks, keep_ends=ke)
             exp_edges = {(a, b) for (a, b) in edges if a in exp_alive and b in exp_alive}
         got_alive = {i for i in range(n) if jobs[i] in s.jobs}
         if got_alive != exp_alive or len(s.jobs) != len(exp_alive):
@@ -958,6 +966,24 @@ def rt_cases(prop):
               for i in range(0, 7) for j in range(0, 7) if abs(i - j) <= 4],
             *[S('top', [S('in', [J('a', yields=i), J('b', duration=5), J('s', duration=5)], [(1, 0)], window=2),
                         J('long', duration=9)], timeout=1) for i in range(0, 5)],
+            # a run that fails, then the scheduler is emptied and run again: an empty run is a success with no cause
+            S('top', [J('a', duration=5)], timeout=1, rerun=True, session=[[['clear', 'top']]]),
+            S('top', [S('in', [J('c', critical=True, outcome='raise')]), J('z')], rerun=True, session=[[['clear', 'in']]]),
+            # a query, then a job bypassed (no sanitize needed), then a run
+            S('top', [J('a'), J('x', duration=0), J('c', duration=4)], [(1, 0), (2, 1)], rerun=True,
+              session=[[['query', 'top'], ['bypass', 'top', 'x']]]),
+            S('top', [J('a'), J('x', duration=0), J('c', duration=4), J('d', duration=2)], [(1, 0), (2, 1), (3, 1)], rerun=True,
+              session=[[['query', 'top'], ['bypass', 'top', 'x']]], window=2),
+            # jobs that take longer to honour their cancellation than shutdown_timeout, on the three exit paths
+            S('top', [J('c', critical=True, outcome='raise'), J('slow', duration=9, cancel_delay=0.5)], shutdown_timeout=0.125),
+            S('top', [J('slow', duration=9, cancel_delay=0.5)], timeout=1, shutdown_timeout=0.125),
+            S('top', [J('a'), J('f', duration=None, forever=True, cancel_delay=0.5)], shutdown_timeout=0.125),
+            S('top', [S('in', [J('slow', duration=9, cancel_delay=0.5)], shutdown_timeout=0.125),
+                      J('c', critical=True, outcome='raise')], shutdown_timeout=0.125),
+            # read-only queries made by another task while the run is in progress
+            S('top', [J('a'), J('b', duration=3), J('c')], [(2, 0), (2, 1)], probe_at=[2]),
+            S('top', [S('in', [J('a'), J('b', duration=3), J('c')], [(2, 0), (2, 1)]), J('z', duration=4)], probe_at=[1.5, 2.5]),
+            S('top', [J('a'), J('b', duration=3), J('c'), J('d', duration=2)], [(2, 0), (2, 1), (3, 0)], probe_at=[0.5, 2], window=2),
             # a tolerated failure first, a critical one later, along chains of critical / non-critical schedulers
             S('top', [S('n1', [S('n2', [J('t', outcome='raise'), J('x', duration=2, critical=True, outcome='raise')],
                                  critical=True)], critical=True), J('y', duration=5)], critical=True),
@@ -985,6 +1011,8 @@ def rt_cases(prop):
                 sp['watch'] = True                         # a Watch shared by the tree (display aid: changes nothing)
             if i % 6 == 1:
                 sp['verbose'] = True                       # verbose schedulers (messages only)
+            if i % 6 == 4:
+                sp['probe_at'] = [r2.choice([0.5, 1, 1.5, 2, 2.5, 3]) for _ in range(r2.randint(1, 2))]   # queries mid-run
             flat = all(m['type'] == 'job' for m in sp['members'])
             if i % 7 == 5 and prop not in ('C06', 'C10', 'C13') and (prop != 'C14' or flat):
                 # a session: the tree is edited (requirements, windows, jobs added or removed, read-only queries)
@@ -1029,6 +1057,8 @@ def rt_run(case):
         return RT.o_c10(case['spec'])
     if case['kind'] == 'rt-c10s':
         return RT.run_oracle('C10', case['spec'])
+    if case['prop'] in ('C06', 'C10') and case['spec'].get('rerun'):
+        return None      # the relational properties are judged on single runs
     if case['prop'] in ('C06', 'C10'):
         # fixed scenarios: checked through the pairing of the property
         if case['prop'] == 'C06':
